@@ -258,6 +258,21 @@ static void ev(const char *what, const std::string &detail) {
     sim::finish_run(g_res);
 }
 
+// Overwrites the stack area that the next library call is going to use, so that a local variable that is read before it is written
+// (visible in the -O0 build, where locals live in memory) sees seeded garbage rather than whatever the previous call happened to leave.
+__attribute__((noinline, no_sanitize("address"))) static void dirty_stack(uint64_t pattern) {
+    // written below this function's own stack pointer (no frame, no sanitizer red zones in between): exactly the bytes the callee's
+    // frames are going to occupy
+    uintptr_t sp;
+    __asm__ volatile("mov %%rsp, %0" : "=r"(sp));
+    volatile uint64_t *p = (volatile uint64_t *)(sp & ~(uintptr_t)7) - 1;
+    for (int i = 0; i < 768; i++) *p-- = pattern;
+    __asm__ volatile("" ::: "memory");
+}
+
+static uint64_t g_dirty_pat = ~0ULL;
+#define DIRTY() dirty_stack(g_dirty_pat)
+
 static void fill_garbage(uint8_t *p, size_t n, Rng &r) {
     for (size_t i = 0; i < n; i++) p[i] = (uint8_t)r.next();
 }
@@ -265,8 +280,10 @@ static void fill_garbage(uint8_t *p, size_t n, Rng &r) {
 static uint64_t mask_w(unsigned w) { return w >= 64 ? ~0ULL : (w ? (1ULL << w) - 1 : 0); }
 
 static void do_write(const BindFormat *f, const BindField *fl, const std::string &via, uint8_t *pdu, uint64_t v) {
-    if (via == "gen") f->setfield(pdu, fl->field_id, v);
-    else if (via == "ded") fl->set(pdu, v);
+    int how = via == "gen" ? 0 : via == "ded" ? 1 : 2;
+    DIRTY();
+    if (how == 0) f->setfield(pdu, fl->field_id, v);
+    else if (how == 1) fl->set(pdu, v);
     else f->legacy_set(pdu, fl->legacy_id >= 0 ? fl->legacy_id : fl->field_id, v);
 }
 static uint64_t arg_value(const BindFormat *f, const BindField *fl, const std::string &via, uint64_t v) {
@@ -335,6 +352,10 @@ static void exec(const std::string &text, bool verbose) {
         }
         if (kv.op != "op") continue;
         op_index++;
+        {   // stack residue: all-ones, 0xA5, small values or random bytes, by operation index
+            static const uint64_t pats[] = {~0ULL, 0xA5A5A5A5A5A5A5A5ULL, 0x0101010101010101ULL, 0x0302010003020100ULL};
+            g_dirty_pat = (op_index & 4) ? garbage.next() : pats[op_index & 3];
+        }
         auto bit = bufs.find((int)kv.u64("b"));
         if (bit == bufs.end()) continue;
         Buf &b = bit->second;
@@ -355,6 +376,7 @@ static void exec(const std::string &text, bool verbose) {
             bool legacy = via == "legacy", legacy2 = via == "legacy2";
             if (legacy2 ? !f->legacy_init2 : legacy ? !f->legacy_init : !f->init) continue;
             ev("init", strf("b=%d fmt=%s via=%s", b.id, f->name, via.c_str()));
+            DIRTY();
             if (legacy2) f->legacy_init2(pdu, (unsigned)kv.u64("v")); else if (legacy) f->legacy_init(pdu); else f->init(pdu);
             memcpy(mpdu, f->init_bytes, f->spec_bytes);
             if (legacy2) {  // avtp_cvf_pdu_init(pdu, format_subtype)
@@ -412,8 +434,10 @@ static void exec(const std::string &text, bool verbose) {
             if (!fl) continue;
             if ((via == "gen" && (!f->getfield || fl->field_id < 0)) || (via == "ded" && !fl->get) || (via == "leg" && (!f->legacy_get || fl->field_id < 0))) continue;
             uint64_t got = 0;
-            if (via == "gen") got = f->getfield(pdu, fl->field_id);
-            else if (via == "ded") got = fl->get(pdu);
+            int how = via == "gen" ? 0 : via == "ded" ? 1 : 2;
+            DIRTY();
+            if (how == 0) got = f->getfield(pdu, fl->field_id);
+            else if (how == 1) got = fl->get(pdu);
             else f->legacy_get(pdu, fl->legacy_id >= 0 ? fl->legacy_id : fl->field_id, &got);
             uint64_t want = fl->width ? wire::get_bits(mpdu, fl->bit, fl->width) : 0;
             ev("get", strf("b=%d %s.%s via=%s -> 0x%llx", b.id, f->name, fl->name, via.c_str(), (unsigned long long)got));
@@ -445,6 +469,7 @@ static void exec(const std::string &text, bool verbose) {
             uint64_t v = arg_value(f, fl, "ded", kv.u64("v"));
             uint64_t want_before = fl->width ? wire::get_bits(mpdu, fl->bit, fl->width) : 0, before = 0;
             ev("fused", strf("b=%d %s.%s v=0x%llx init=%d", b.id, f->name, fl->name, (unsigned long long)v, (int)with_init));
+            DIRTY();
             uint64_t after = fl->fused(pdu, v, &before, with_init);
             if (with_init) memcpy(mpdu, f->init_bytes, f->spec_bytes);
             else wire::set_bits(mpdu, fl->bit, fl->width, v & mask_w(fl->width));
@@ -466,6 +491,7 @@ static void exec(const std::string &text, bool verbose) {
             unsigned k = (unsigned)kv.u64("k") % fl->ncset;
             uint64_t v = fl->cval[k];
             ev("setc", strf("b=%d %s.%s v=0x%llx", b.id, f->name, fl->name, (unsigned long long)v));
+            DIRTY();
             fl->cset[k](pdu);
             wire::set_bits(mpdu, fl->bit, fl->width, v & mask_w(fl->width));
             per_entry["entry.set.constant"]++;
@@ -490,10 +516,13 @@ static void exec(const std::string &text, bool verbose) {
             auto mset = [&](const char *name, uint64_t v) { const BindField *fl = find_field(f, name); if (fl) wire::set_bits(mpdu, fl->bit, fl->width, v & mask_w(fl->width)); };
             auto m_payload = [&] { memcpy(mpdu + hdr, src.data(), len); };
             auto m_finalize = [&] { memset(mpdu + hdr + len, 0, pad); mset("ACF_MSG_LENGTH", (hdr + len + pad) / 4); mset("PAD", pad); };
-            if (kind == "setpayload" && !brief) { drv_can_setpayload(pdu, src.data(), (uint16_t)len); m_payload(); }
-            else if (kind == "finalize") { if (brief) drv_canbrief_finalize(pdu, (uint16_t)len); else drv_can_finalize(pdu, (uint16_t)len); m_finalize(); }
+            int bk = (kind == "setpayload" && !brief) ? 0 : kind == "finalize" ? 1 : 2;
+            uint8_t *srcp = src.data();
+            DIRTY();
+            if (bk == 0) { drv_can_setpayload(pdu, srcp, (uint16_t)len); m_payload(); }
+            else if (bk == 1) { if (brief) drv_canbrief_finalize(pdu, (uint16_t)len); else drv_can_finalize(pdu, (uint16_t)len); m_finalize(); }
             else {
-                if (brief) drv_canbrief_setpayload(pdu, cid, src.data(), (uint16_t)len, variant); else drv_can_create(pdu, cid, src.data(), (uint16_t)len, variant);
+                if (brief) drv_canbrief_setpayload(pdu, cid, srcp, (uint16_t)len, variant); else drv_can_create(pdu, cid, srcp, (uint16_t)len, variant);
                 m_payload(); mset("EFF", cid > 0x7ff); mset("CAN_IDENTIFIER", cid); mset("FDF", (uint64_t)variant); m_finalize();
                 kind = "create";
             }
